@@ -801,7 +801,7 @@ impl<'a> Ctx<'a> {
     }
 
     fn comp(&mut self, depth: usize) -> Node {
-        let mut kinds = vec!["plain", "plain", "multi", "mchild", "styled", "sslots"];
+        let mut kinds = vec!["plain", "plain", "multi", "multi2", "mchild", "styled", "sslots"];
         if self.f.model && !self.in_template {
             kinds.push("mnest");
         }
@@ -853,7 +853,7 @@ impl<'a> Ctx<'a> {
                 let children = if self.r.chance(0.7) { self.nodes(depth + 1) } else { vec![] };
                 Node::El { tag: "plain".into(), attrs, children }
             }
-            "multi" => {
+            "multi" | "multi2" => {
                 attrs.push(Attr { name: "p".into(), val: AttrVal::Bind(self.top_expr()) });
                 let mut children = vec![];
                 let n = self.r.range(1, 3);
@@ -889,7 +889,7 @@ impl<'a> Ctx<'a> {
                     let tag = if self.r.chance(0.3) { "block" } else { "view" };
                     children.push(Node::El { tag: tag.into(), attrs: a, children: vec![Node::Text(self.text_parts())] });
                 }
-                Node::El { tag: "multi".into(), attrs, children }
+                Node::El { tag: kind.into(), attrs, children }
             }
             "styled" => {
                 // a component that declares `style` (and gets it as a property, not as a style)
@@ -1311,6 +1311,8 @@ pub fn catalogue_file(kind: &str) -> TFile {
         "styled" => "<text>Y:{{style}}:{{p}}</text>",
         "multi" => "<view id=\"sa\"><slot name=\"a\"/></view><view id=\"sb\"><slot name=\"b\"/></view><text>M:{{p}}</text><slot/>",
         "mchild" => "<text>V:{{val}}</text>",
+        // (the slots are siblings under one parent)
+        "multi2" => "<view id=\"v\">N:{{p}}</view><slot/><slot name=\"b\"/><slot name=\"a\"/>",
         "mobs" => "<text>O:{{val}}:{{max}}</text>",
         "sslots" => "<block wx:for=\"{{items}}\" wx:key=\"k\"><view id=\"w{{item.k}}\"><slot/></view></block><text>Z</text>",
         "dyn" => "<text>D:{{p}}</text><block wx:for=\"{{items}}\" wx:key=\"k\"><slot sv=\"{{item}}\" si=\"{{index}}\"/></block>",
@@ -1329,6 +1331,7 @@ pub fn catalogue_component(kind: &str) -> Value {
         "plain" => json!({"is": "plain", "path": "comp/plain", "properties": {"p": {"type": "any", "value": null}, "q": {"type": "any", "value": null}, "online": {"type": "any", "value": null}, "bindLabel": {"type": "any", "value": null}}}),
         "styled" => json!({"is": "styled", "path": "comp/styled", "properties": {"style": {"type": "any", "value": null}, "p": {"type": "any", "value": null}}}),
         "multi" => json!({"is": "multi", "path": "comp/multi", "options": {"multipleSlots": true}, "properties": {"p": {"type": "any", "value": null}}}),
+        "multi2" => json!({"is": "multi2", "path": "comp/multi2", "options": {"multipleSlots": true}, "properties": {"p": {"type": "any", "value": null}}}),
         "mchild" => json!({"is": "mchild", "path": "comp/mchild", "properties": {"val": {"type": "any", "value": null}, "nval": {"type": "any", "value": null}}}),
         "dyn" => json!({"is": "dyn", "path": "comp/dyn", "options": {"dynamicSlots": true}, "properties": {"items": {"type": "any", "value": []}, "p": {"type": "any", "value": null}}}),
         "dynnk" => json!({"is": "dynnk", "path": "comp/dynnk", "options": {"dynamicSlots": true}, "properties": {"items": {"type": "any", "value": []}, "p": {"type": "any", "value": null}}}),
@@ -1384,7 +1387,9 @@ pub fn generate_with(seed: u64, prop: Prop, deep: bool) -> World {
         Prop::C07 => String::new(),
         _ => (*rc.pick(&["", "", "", "virtualTree"])).to_string(),
     };
-    config.backend = (*rc.pick(&["composed", "composed", "shadow"])).to_string();
+    // ("recorded": the repository's strict in-memory composed backend, whose child lists show the
+    // order in which the runtime handed nodes to the backend)
+    config.backend = (*rc.pick(&["composed", "recorded", "shadow", "recorded"])).to_string();
     config.data_deep_copy = (*rc.pick(&["", "", "none", "simple-recursion"])).to_string();
     // propertyPassingDeepCopy "none" is not in the workload: it hands children the host's own
     // arrays, and its documentation says in-place changes then go unnoticed by the child
